@@ -492,7 +492,7 @@ Lemma step_eid u t p t' r :
   t_eid t <= t_eid t' /\
   (forall m, r = Some m -> exec_id_of m = Some (z_to_dec (t_eid t + 1)) /\ t_eid t' = t_eid t + 1).
 Proof.
-  destruct p as [key|o a]; cbn [step].
+  destruct p as [key|o a|b]; cbn [step]; [| |intros H; inversion H; subst; unfold bookkeeping; split; [lia|discriminate]].
   - intros H; inversion H; subst. cbn [register t_eid]. split; [lia|discriminate].
   - destruct (fix_exec_report_msg u t o a) as [m t1|t1] eqn:E; intros H; inversion H; subst.
     + apply exec_ids in E as (G & E1 & _). split; [lia|]. intros m' Hm; inversion Hm; subst. now split.
@@ -797,7 +797,7 @@ Proof. split; reflexivity. Qed.
 Lemma step_lookup u t p t' r k v :
   step u t p = (t', r) -> lookup k (t_oids t) = Some v -> lookup k (t_oids t') = Some v.
 Proof.
-  destruct p as [key|o a]; cbn [step].
+  destruct p as [key|o a|b]; cbn [step]; [| |intros H; inversion H; subst; now unfold bookkeeping].
   - intros H; inversion H; subst. now cbn [register t_oids].
   - destruct (fix_exec_report_msg u t o a) as [m t1|t1] eqn:E; intros H L; inversion H; subst.
     + apply exec_ok_inv in E as (? & ? & ? & ? & ? & ? & _ & _ & _ & _ & _ & _ & _ & _ & -> & _).
@@ -879,7 +879,7 @@ Qed.
 
 Lemma step_wf u t p t' r : step u t p = (t', r) -> wf_t t -> wf_t t'.
 Proof.
-  destruct p as [key|o a]; cbn [step].
+  destruct p as [key|o a|b]; cbn [step]; [| |intros H; inversion H; subst; now unfold bookkeeping].
   - intros H; inversion H; subst. auto.
   - destruct (fix_exec_report_msg u t o a) as [m t1|t1] eqn:E; intros H W; inversion H; subst.
     + apply exec_ok_inv in E as (? & ? & ? & ? & ? & ? & _ & _ & _ & _ & _ & _ & _ & _ & -> & _). now apply after_ids_wf.
@@ -1014,4 +1014,22 @@ Lemma drive_witness :
           w_args (o_clord w_order) NEW NEW (Some 0) (Some (8 * 4096));
           w_args (o_clord w_order) CANCELED CANCELED None (Some 0)])
   = [(Some [49%N], Some [49;48;48;48;49]%N); (Some [49%N], Some [49;48;48;48;50]%N); (Some [49%N], Some [49;48;48;48;51]%N)].
+Proof. vm_compute. reflexivity. Qed.
+
+(* the bookkeeping methods leave the fabrication state alone (the model's claim, tied to the code by the harness
+   after every such call) *)
+Lemma bookkeeping_id t b : bookkeeping t b = t.
+Proof. reflexivity. Qed.
+
+(* a two-phase history: two reports, reset_messages() and set_next_num(), two more reports: ExecIDs 10001..10004,
+   one OrderID *)
+Lemma reset_history_witness :
+  let a1 := w_args (o_clord w_order) PENDING_NEW PENDING_NEW None None in
+  let a2 := w_args (o_clord w_order) NEW NEW (Some 0) (Some (8 * 4096)) in
+  map (fun m => (order_id_of m, exec_id_of m))
+      (snd (run_ops 4096 w_state
+              [OpExec w_order a1; OpExec w_order a2; OpBook BResetMessages; OpBook (BSetNextNum (Some 5) None);
+               OpExec w_order a1; OpBook BQuery; OpExec w_order a2]))
+  = [(Some [49%N], Some [49;48;48;48;49]%N); (Some [49%N], Some [49;48;48;48;50]%N);
+     (Some [49%N], Some [49;48;48;48;51]%N); (Some [49%N], Some [49;48;48;48;52]%N)].
 Proof. vm_compute. reflexivity. Qed.
